@@ -73,7 +73,20 @@ SENTINELS = [
     '<i>zq%d',
     '"><zq%d onload=\'x\'>',
     "5 > 3 & 2 < 4 zq%d",
+    # attribute context: try to leave a quoted attribute value
+    '" onmouseover="zq%d()" x="',
+    "' onclick='zq%d()' x='",
+    # JS-string context (onclick="toggleCollapse(event, '...')", querySelector("#...")): try to leave the string
+    "');zqalert%d(1);//",
+    '");zqalert%d(1);//',
+    # URL context (href="..."): fragment, query, space, scheme
+    '#zq%d?x=1 y&z=2',
+    'javascript:zqalert%d(1)',
+    # backticks (JS template literals) and characters outside the BMP / non-ASCII
+    '`zq%d` ${x} \U0001F600 \u4e2d \u00e9',
 ]
+PAYLOAD_KIND = ['element', 'script', 'close-pre', 'ops-quotes', 'entities', 'close-div', 'open-tag', 'unclosed-i', 'attr-break', 'ops',
+                'attr-dq', 'attr-sq', 'js-sq', 'js-dq', 'url-frag', 'url-scheme', 'backtick-nonbmp']
 HEAVY = ['<!-- zq%d']   # swallows the rest of the page in a real parser: only in a few cases
 
 PRIMS = ['bool', 'uint8', 'uint3', 'int16', 'float32', 'truncated uint12', 'saturated int7', 'uint64', 'float16', 'truncated float64']
@@ -89,6 +102,7 @@ class CaseGen:
         self.counter = 0
         self.docs: typing.List[str] = []     # every doc text placed into the DSDL (as written)
         self.files: typing.Dict[str, typing.Dict[str, str]] = {}
+        self.kinds: typing.Dict[str, int] = {}
         self.types: typing.List[dict] = []   # generated so far: name (full), major, minor, deprecated, service, root
         self.port = 100
 
@@ -102,6 +116,8 @@ class CaseGen:
             t = r.choice(HEAVY)
         else:
             t = r.choice(SENTINELS)
+        if t in SENTINELS:
+            self.kinds[PAYLOAD_KIND[SENTINELS.index(t)]] = self.kinds.get(PAYLOAD_KIND[SENTINELS.index(t)], 0) + 1
         t = t % ((k,) * t.count('%d'))
         self.docs.append(t)
         return t
@@ -214,7 +230,7 @@ class CaseGen:
         for root in roots:
             if root not in self.files:
                 self.add_type(root, [root], 'Lone', 1, 0, self.header() + 'uint8 a\n@sealed\n')
-        return {'id': self.cid, 'flavour': self.flavour, 'roots': self.files, 'docs': self.docs}
+        return {'id': self.cid, 'flavour': self.flavour, 'roots': self.files, 'docs': self.docs, 'payload_kinds': self.kinds}
 
 
 CORPUS = [
@@ -406,6 +422,10 @@ def oracle(case: dict, pages: typing.Dict[str, str]) -> typing.List[dict]:
         raw = pages[rel]
         in_script = False
         for e in ev:
+            if e[0] == 's':
+                for k, v in e[2]:
+                    if 'zq' in k or (v is not None and 'zq' in v and not (k in ('content',) and False)):
+                        fails.append({'kind': 'text', 'page': rel, 'what': 'DSDL text reached attribute %s=%r of <%s>' % (k, (v or '')[:40], e[1])})
             if e[0] == 's' and e[1].startswith('zq'):
                 fails.append({'kind': 'text', 'page': rel, 'what': 'DSDL text became element <%s>' % e[1]})
             if e[0] == 's':
@@ -578,7 +598,7 @@ def model_cfg(exe: str) -> typing.Tuple[typing.Optional[dict], typing.Dict[str, 
         return None, {}
     f = [x == '1' for x in out[0].split(' ')[1:]]
     keys = ['ae_ti', 'de_ti', 'ae_ni', 'de_ni', 'ae_sb', 'de_sb', 'ae_tb', 'de_tb', 'ae_ns', 'docs_escaped', 'lk_up', 'url_links_service',
-            'all_dsdl_text_sinks_escaped', 'all_template_skeletons_balanced']
+            'all_dsdl_text_sinks_escaped', 'all_template_skeletons_balanced', 'sinks_classified_safe_in_coq']
     names = {}
     for l in out[1:]:
         t = l.split(' ')
@@ -718,7 +738,8 @@ def main(chk: core.Check, replay: typing.Optional[str] = None) -> int:
     stats = {'cases': len(cases), 'pages': 0, 'pages_compared': 0, 'regions_compared': 0, 'oracle_failures_known': 0,
              'flavour': {}, 'hrefs_checked': 0, 'ids_compared': 0, 'benign_pages_scan_wf': 0, 'model_used': {'F': 0, 'C': 0},
              'sentinel_docs': 0, 'type_links': 0, 'cross_root_links': 0, 'selftest_evals': st_n, 'nnvg_runs': 0,
-             'max_namespace_depth': 0, 'cases_with_depth_ge_5': 0, 'links_into_depth_ge_4': 0}
+             'max_namespace_depth': 0, 'cases_with_depth_ge_5': 0, 'links_into_depth_ge_4': 0, 'payload_kinds': {},
+             'display_type_evals': 0}
     distinct = set()
     violations_found: typing.List[dict] = []
     corr_bad: typing.List[dict] = []
@@ -736,6 +757,16 @@ def main(chk: core.Check, replay: typing.Optional[str] = None) -> int:
         stats['max_namespace_depth'] = max(stats['max_namespace_depth'], depth)
         stats['cases_with_depth_ge_5'] += depth >= 5
         stats['sentinel_docs'] += sum(1 for d in case.get('docs', []) if any(ch in d for ch in SPECIALS))
+        for kk, vv in case.get('payload_kinds', {}).items():
+            stats['payload_kinds'][kk] = stats['payload_kinds'].get(kk, 0) + vv
+        # translated filter_display_type vs. the Python original on every attribute / array the dump met
+        if ok_model and o.get('disp'):
+            outm = run_model(exe, ['DISP ' + sx for sx, _ in o['disp']])
+            for (sx, py), ml in zip(o['disp'], outm):
+                stats['display_type_evals'] += 1
+                if ml != 'DISP ' + enc(py):
+                    corr_bad.append({'case': case, 'what': 'filter_display_type: translated model and Python original differ', 'node': sx,
+                                     'python': py, 'model': dec(ml[5:]) if ml.startswith('DISP ') else ml})
         special = doc_has_special(case)
         # which model applies: the quirk-faithful one while F-HTML-ESCAPE reproduces, else the conformant one
         use = 'F' if (esc_quirk or not special) else 'C'
